@@ -203,6 +203,28 @@ def v2_random_case(rng, i):
             'tags': {'mode': 'chords-v2-random', 'nchords': len(chords)}}
 
 
+def v2_two_chords_case(rng, i):
+    """two disjoint chords held at the same time, let go in activation order or the other way round: each goes up per its own rule"""
+    r1, r2 = rng.choice(['first-release', 'all-released']), rng.choice(['first-release', 'all-released'])
+    cfg = ('(defcfg concurrent-tap-hold yes)\n(defsrc a s d f g h k l)\n(deflayer base a s d f g h k l)\n'
+           '(defchordsv2 (a s) z 50 %s () (d f) x 50 %s () (g h) c 50 all-released ())' % (r1, r2))
+    groups = [[30, 31], [32, 33], [34, 35]][:rng.choice([2, 2, 3])]
+    h = ['t200']
+    for g in groups:
+        ks = list(g); rng.shuffle(ks)
+        h += ['d%d' % ks[0], 't%d' % rng.randint(1, 5), 'd%d' % ks[1], 't%d' % rng.choice([70, 120])]
+    order = list(range(len(groups)))
+    if rng.random() < 0.7:
+        order.reverse()
+    else:
+        rng.shuffle(order)
+    for gi in order:
+        ks = list(groups[gi]); rng.shuffle(ks)
+        h += ['u%d' % ks[0], 't%d' % rng.randint(1, 30), 'u%d' % ks[1], 't%d' % rng.choice([5, 80])]
+    h += ['t300', 'q']
+    return {'id': 'c09-v2two-%d' % i, 'cfg': cfg, 'hist': h, 'sub': 'ksim', 'tags': {'mode': 'chords-v2-two-held', 'n': len(groups)}}
+
+
 def gen_cases(rng, tier):
     cases = lsim_cases(rng, 'c09', 150 if tier == 'quick' else 4000, 3, nev=(2, 16), tag='c09')
     for i in range(200 if tier == 'quick' else 6000):
@@ -211,6 +233,8 @@ def gen_cases(rng, tier):
         cases.append(v2_random_case(rng, i))
     for i in range(150 if tier == 'quick' else 4000):
         cases.append(v2_release_case(rng, i))
+    for i in range(24 if tier == 'quick' else 600):
+        cases.append(v2_two_chords_case(rng, i))
     # more than 16 chords that contain the pressed keys (the candidate list of the implementation holds 16): the chord that is
     # exactly the pressed set, written after them, still fires when the timeout passes or a participant is released
     import itertools
